@@ -126,6 +126,91 @@ Theorem C06_depth_heuristic : forall T st km m q,
 Proof. exact post_depth_denotes. Qed.
 Print Assumptions C06_depth_heuristic.
 
+(* ConvertUnitsBack and ConvertUnits are one affine map: ConvertUnitsBack applied to the user's own pair (x, u) gives the
+   value ConvertUnits stores for the text "x u" (every table, unit, value) *)
+Theorem C06_back_agrees_with_convert : forall T sp pref u x o n v c' b,
+  table_wf T -> s_pref sp = pref ->
+  t_parse T pref = Some o -> t_parse T u = Some n -> same_dim o n = true -> ~ pu_fac o == 0 ->
+  convert_units_pint T (UEnum pref) x u = ROk (v, c') ->
+  exists st', convert_units_back T sp (mkP x (UEnum u) b) = ROk st' /\ p_value st' == v /\ p_cur st' = UEnum pref.
+Proof. exact back_agrees_with_convert. Qed.
+Print Assumptions C06_back_agrees_with_convert.
+
+(* round trip: a value re-expressed in any unit and put through ConvertUnitsBack is the value again *)
+Theorem C06_back_roundtrip : forall T sp c v a p b,
+  t_parse T (s_pref sp) = Some p -> t_parse T c = Some a -> same_dim a p = true ->
+  ~ pu_fac a == 0 -> ~ pu_fac p == 0 ->
+  exists st', convert_units_back T sp (mkP (convert p a v) (UEnum c) b) = ROk st' /\
+              p_value st' == v /\ p_cur st' = UEnum (s_pref sp).
+Proof. exact back_reexpress_roundtrip. Qed.
+Print Assumptions C06_back_roundtrip.
+
+(* well diameters ("> 2 must be inches"): the pair still denotes the diameter read, and the echo returns the inches read *)
+Theorem C06_diameter_heuristic : forall T st i m,
+  t_parse T "in" = Some i -> t_parse T "meter" = Some m ->
+  pu_fac i == (254 # 10000) * pu_fac m -> pu_off i == 0 -> pu_off m == 0 ->
+  p_cur st = UEnum "in" ->
+  denotes T (p_cur (post_diameter st)) (p_value (post_diameter st)) (to_base i (p_value st)).
+Proof. exact post_diameter_denotes. Qed.
+Print Assumptions C06_diameter_heuristic.
+
+Theorem C06_diameter_echo_roundtrip : forall T sp st i m,
+  s_pref sp = "in" -> t_parse T "in" = Some i -> t_parse T "meter" = Some m -> same_dim m i = true ->
+  pu_fac i == (254 # 10000) * pu_fac m -> pu_off i == 0 -> pu_off m == 0 -> ~ pu_fac m == 0 ->
+  p_cur st = UEnum "in" ->
+  exists st', echo_state T sp (post_diameter st) = ROk st' /\ p_value st' == p_value st /\ units_match "in" (p_cur st') = true.
+Proof. exact post_diameter_echo_roundtrip. Qed.
+Print Assumptions C06_diameter_echo_roundtrip.
+
+Theorem C06_depth_echo_roundtrip : forall T sp st km m,
+  s_pref sp = "kilometer" -> t_parse T "kilometer" = Some km -> t_parse T "meter" = Some m -> same_dim m km = true ->
+  pu_fac km == 1000 * pu_fac m -> pu_off km == 0 -> pu_off m == 0 -> ~ pu_fac m == 0 ->
+  exists st', echo_state T sp (post_depth st) = ROk st' /\ p_value st' == p_value st /\ p_cur st' = UEnum "kilometer".
+Proof. exact post_depth_echo_roundtrip. Qed.
+Print Assumptions C06_depth_echo_roundtrip.
+
+(* Economics.Calculate's "depth > 500 -> / 1000, KILOMETERS": the pair keeps denoting the depth; read + x1000 + back is the
+   number of kilometres that was read (for depths over 500 m) *)
+Theorem C06_depth_back_heuristic : forall T st km m q,
+  t_parse T "kilometer" = Some km -> t_parse T "meter" = Some m ->
+  pu_fac km == 1000 * pu_fac m -> pu_off km == 0 -> pu_off m == 0 ->
+  p_cur st = UEnum "meter" -> to_base m (p_value st) == q ->
+  denotes T (p_cur (post_depth_back st)) (p_value (post_depth_back st)) q.
+Proof. exact post_depth_back_denotes. Qed.
+Print Assumptions C06_depth_back_heuristic.
+
+Theorem C06_depth_there_and_back : forall st,
+  Qltb 500 (p_value st * 1000) = true ->
+  p_value (post_depth_back (post_depth st)) == p_value st /\ p_cur (post_depth_back (post_depth st)) = UEnum "kilometer".
+Proof. exact post_depth_there_and_back. Qed.
+Print Assumptions C06_depth_there_and_back.
+
+(* 'Reservoir Impedance' x 1000 keeps the unit: the stored pair is 1000 x the quantity read (NOT the quantity), and the
+   report's "value / 1000" is exactly what undoes it *)
+Theorem C06_impedance_heuristic : forall st,
+  p_value (post_impedance st) / 1000 == p_value st /\ p_cur (post_impedance st) = p_cur st.
+Proof. exact post_impedance_echo. Qed.
+Print Assumptions C06_impedance_heuristic.
+
+Theorem C06_impedance_denotation_scaled : forall T st c,
+  parse_uref T (p_cur st) = Some c -> pu_off c == 0 ->
+  to_base c (p_value (post_impedance st)) == 1000 * to_base c (p_value st).
+Proof. exact post_impedance_denotation. Qed.
+Print Assumptions C06_impedance_denotation_scaled.
+
+(* one-line list parameters ("Gradients, 0.05 degC/m, ..."): a unit suffix on any element is never read - the call raises
+   or the line is ignored; without suffixes the list is the numbers of the line *)
+Theorem C06_list_line_units_never_read : forall T sp o x u raw r,
+  existsb snd raw = true -> read_list_line T sp o x u raw = ROk r -> o_vals r = o_vals o.
+Proof. exact read_list_line_units_never_read. Qed.
+Print Assumptions C06_list_line_units_never_read.
+
+Theorem C06_list_line_plain : forall T sp o x raw,
+  existsb snd raw = false -> Qltb x (s_min sp) || Qltb (s_max sp) x = false ->
+  read_list_line T sp o x None raw = ROk (mkO (map fst raw) (o_cur o) (o_pref o)).
+Proof. exact read_list_line_plain. Qed.
+Print Assumptions C06_list_line_plain.
+
 (* ---- output units ---- *)
 
 (* a requested output unit: every element of the series (any length) is converted, the label is the requested unit *)
@@ -244,3 +329,23 @@ Example C06_reference_nonvacuous :
   existsb (fun e => String.eqb (fst (fst (fst e))) "USD/MMBTU") ref_units = true /\
   existsb (fun e => String.eqb (fst (fst (fst e))) "cents/kWh") ref_units = true /\ Nat.leb 80 (List.length ref_units) = true.
 Proof. repeat split; vm_compute; reflexivity. Qed.
+
+Example C06_heuristics_nonvacuous :
+  exists i m km, t_parse gen_tables "in" = Some i /\ t_parse gen_tables "meter" = Some m /\ t_parse gen_tables "kilometer" = Some km /\
+    pu_fac i == (254 # 10000) * pu_fac m /\ pu_off i == 0 /\ pu_off m == 0 /\ same_dim m i = true /\ same_dim m km = true /\
+    p_value (post_diameter (mkP (85 # 10) (UEnum "in") true)) == 2159 # 10000 /\
+    p_value (post_diameter (mkP (15 # 10) (UEnum "in") true)) == 15 # 10 /\
+    Qltb 500 (p_value (mkP 3 (UEnum "kilometer") true) * 1000) = true.
+Proof. eexists. eexists. eexists. repeat split; vm_compute; reflexivity. Qed.
+
+Example C06_back_roundtrip_nonvacuous :
+  exists st', convert_units_back gen_tables (mkS KFloat false "degC" 0 200 70 []) (mkP 122 (UEnum "degF") true) = ROk st' /\
+              p_value st' == 50 /\ p_cur st' = UEnum "degC".
+Proof. eexists. split; [vm_compute; reflexivity|]. split; vm_compute; reflexivity. Qed.
+
+Example C06_list_line_nonvacuous :
+  read_list_line gen_tables (mkS KFloat false "degC/km" 0 500 0 []) (mkO [5 # 100; 0] (UEnum "degC/m") "degC/km") (5 # 100)
+                 (Some "degC/m") [(5 # 100, true); (4 # 100, true)] = RErr E_FLOAT /\
+  read_list_line gen_tables (mkS KFloat false "degC/km" 0 500 0 []) (mkO [5 # 100; 0] (UEnum "degC/m") "degC/km") 50
+                 None [(50, false); (40, false)] = ROk (mkO [50; 40] (UEnum "degC/m") "degC/km").
+Proof. split; vm_compute; reflexivity. Qed.
